@@ -76,6 +76,24 @@ class NPFacade:
     def random(self):
         return getattr(self, "_random_ns", np.random)
 
+
+    def arctan2(self, a, b):
+        if isinstance(a, Q) or isinstance(b, Q):
+            return Angle(core._num(a), core._num(b))
+        return np.arctan2(a, b)
+
+    def rad2deg(self, x):
+        if isinstance(x, Angle):
+            return x.scaled(180)
+        return np.rad2deg(x)
+
+    def mean(self, a, axis=None, **kw):
+        a0 = _obj(a)
+        if a0.dtype == object:
+            n = a0.shape[axis] if axis is not None else a0.size
+            return np.sum(a0, axis=axis) / n
+        return np.mean(a, axis=axis, **kw)
+
     def __init__(self, exact=True):
         self.exact = exact
 
@@ -240,6 +258,8 @@ class NPFacade:
         return np.nan_to_num(a, **kw)
 
     def abs(self, a):
+        if isinstance(a, Q) and not a.is_const():
+            return LazyAbs(a)
         a0 = _obj(a)
         if a0.dtype == object:
             if a0.ndim == 0:
@@ -302,9 +322,95 @@ class NPFacade:
         if a0.dtype == object:
             out = np.empty(a0.shape, dtype=object)
             for idx in np.ndindex(a0.shape):
-                out[idx] = core.CUR.rint(a0[idx])
+                out[idx] = core.CUR.rint_enum(a0[idx])
             return out if out.ndim else out[()]
+        if isinstance(a, Q):
+            return core.CUR.rint_enum(a)
         return np.rint(a)
+
+
+class LazyAbs:
+    """|x| whose comparisons expand to the two linear cases (forks only where the sign matters)."""
+
+    def __init__(self, x):
+        self.x = x
+
+    def __gt__(self, c):
+        return (self.x > c) or (self.x < -c)
+
+    def __ge__(self, c):
+        return (self.x >= c) or (self.x <= -c)
+
+    def __lt__(self, c):
+        return (self.x < c) and (self.x > -c)
+
+    def __le__(self, c):
+        return (self.x <= c) and (self.x >= -c)
+
+    def _val(self):
+        return abs(self.x)
+
+    def __add__(self, o):
+        return self._val() + o
+
+    __radd__ = __add__
+
+    def __mul__(self, o):
+        return self._val() * o
+
+    __rmul__ = __mul__
+
+    def __sub__(self, o):
+        return self._val() - o
+
+    def __rsub__(self, o):
+        return o - self._val()
+
+    def __truediv__(self, o):
+        return self._val() / o
+
+
+class Angle:
+    """opaque value of arctan2(a, b) followed by recorded affine operations; never approximated.
+    Two angles are the same iff their argument pairs are equal as exact expressions and the same operations followed."""
+
+    def __init__(self, a, b, ops=()):
+        self.a, self.b, self.ops = a, b, tuple(ops)
+
+    def __lt__(self, other):
+        if other == 0 and not self.ops:
+            return self.a < 0          # atan2(a, b) < 0  <=>  a < 0
+        raise core.Inconclusive("ordering of symbolic angles")
+
+    def __add__(self, other):
+        return Angle(self.a, self.b, self.ops + (("add", float(other)),))
+
+    __iadd__ = __add__
+
+    def scaled(self, k):
+        return Angle(self.a, self.b, self.ops + (("scale", k),))
+
+    def same(self, other):
+        return isinstance(other, Angle) and self.ops == other.ops and bool(self.a == other.a) and bool(self.b == other.b)
+
+    def negated(self, other):
+        return (isinstance(other, Angle) and not self.ops and not other.ops and bool(self.a == -other.a)
+                and bool(self.b == other.b))
+
+
+class _Linalg:
+    @staticmethod
+    def norm(v):
+        v0 = _obj(v)
+        if v0.dtype == object:
+            tot = qconst(0)
+            for x in v0.flat:
+                tot = tot + x * x
+            return core.CUR.sqrt(tot)
+        return np.linalg.norm(v)
+
+
+NPFacade.linalg = _Linalg()
 
 
 def install(module, exact=True, **extra):
